@@ -110,7 +110,7 @@ def bj(fn, unw, bound):
                 functions=['carquet_sse_' + fn], level='bounded', bound=bound, wip=True, timeout=600)
 JOBS += [bj('memset_small', [4, 5, 17], 'n 0..130, any alignment offset fixed at 16, all values'),
          bj('memcpy_small', [4, 5, 17], 'n 0..130, all contents'),
-         bj('match_length', [5, 17], 'limit - p <= 48, buffer <= 64 bytes, match before p in the same buffer (LZ), all contents')]
+         bj('match_length', [5, 17], 'limit - p in 0..48 (p at any offset of a 64-byte buffer ending at limit), match before p in the same buffer (LZ), all contents')]
 JOBS[-1]['backend'] = ['cadical', 'sat']
 for dirn in ('encode', 'decode'):
     JOBS.append(dict(name='c15_sse_byte_stream_split_%s_float_bounded' % dirn, entry='h_sse_bss_%s_float_bounded' % dirn, prop='C15',
